@@ -22,6 +22,37 @@ import (
 	"github.com/lab5e/lospan/pkg/server"
 )
 
+// joinRequestSize is the size of a JoinRequest message:
+// MHDR (1) + AppEUI (8) + DevEUI (8) + DevNonce (2) + MIC (4) [6.2.4]
+const joinRequestSize = 23
+
+// verifyAndProcessJoinRequest verifies the MIC of the JoinRequest with the
+// AppKey of the device it names [6.2.4] and processes it if the MIC is valid.
+// Returns false if the request is ignored.
+func (d *Decrypter) verifyAndProcessJoinRequest(decoded server.LoRaMessage) bool {
+	joinRequest := &decoded.Payload.JoinRequestPayload
+	rawMessage := decoded.FrameContext.GatewayContext.RawMessage
+	if len(rawMessage) != joinRequestSize {
+		lg.Info("JoinRequest from device %s is %d bytes, not %d. Ignoring it.", joinRequest.DevEUI, len(rawMessage), joinRequestSize)
+		return false
+	}
+	device, err := d.context.Storage.GetDeviceByEUI(joinRequest.DevEUI)
+	if err != nil {
+		lg.Info("Unknown device attempting JoinRequest: %s", joinRequest.DevEUI)
+		return false
+	}
+	mic, err := decoded.Payload.CalculateJoinRequestMIC(device.AppKey, rawMessage[0:len(rawMessage)-4])
+	if err != nil {
+		lg.Info("Unable to calculate MIC for JoinRequest from device %s: %v", joinRequest.DevEUI, err)
+		return false
+	}
+	if mic != decoded.Payload.MIC {
+		lg.Info("MIC validation failed for JoinRequest from device %s", joinRequest.DevEUI)
+		return false
+	}
+	return d.processJoinRequest(decoded)
+}
+
 // Process the join request. Returns false if it failed.
 func (d *Decrypter) processJoinRequest(decoded server.LoRaMessage) bool {
 	joinRequest := &decoded.Payload.JoinRequestPayload
